@@ -44,43 +44,108 @@ theorem readUntilSemiColonRev_no_panic : ∀ (cs : List Chunk) (ln : List UInt8)
 theorem readUntilSemiColon_no_panic (cs : List Chunk) (ln : List UInt8) (m : String) :
     readUntilSemiColon false cs ln ≠ .panic m := readUntilSemiColonRev_no_panic cs _ m
 
-theorem multiLoop_not_crashed (np : List UInt8 → Res Newick.Parsed) (hnp : ∀ b m, np b ≠ .panic m)
-    (line : Line) (id : Nat) (he : line.err = false) : (multiLoop false np line id he).crashed = false := by
-  fun_induction multiLoop false np line id he
-  case case1 line id he m hp => exact absurd hp (hnp _ _)
-  case case3 line id he p hp m h => exact absurd h (readUntilSemiColon_no_panic _ _ _)
-  case case6 line id he p hp next h hn hne ih => exact ih
+theorem lineLoop_no_panic (cs : List Char) (id : Nat) : ∀ m : String, lineLoop cs id ≠ .panic m := by
+  fun_induction lineLoop cs id
+  case case1 cs id m' hp => intro m; exact absurd hp (Newick.run_no_panic {} cs (Or.inl rfl) m')
+  case case5 cs id p hp hm m' hl ih => intro m; exact absurd hl (ih m')
+  all_goals (intro m; simp)
+
+theorem multiLoop_not_crashed (line : Line) (id : Nat) (he : line.err = false) :
+    (multiLoop false line id he).crashed = false := by
+  fun_induction multiLoop false line id he
+  case case1 line id he m hp => exact absurd hp (lineLoop_no_panic _ _ m)
+  case case4 line id he o hl hf m h => exact absurd h (readUntilSemiColon_no_panic _ _ _)
+  case case7 line id he o hl hf next h hn hne ih => exact ih
   all_goals simp [ROut.crashed]
 
-theorem multiNewickWith_not_crashed (np : List UInt8 → Res Newick.Parsed) (hnp : ∀ b m, np b ≠ .panic m)
-    (chunks : List Chunk) : (multiNewickWith false np chunks).crashed = false := by
+theorem multiNewickWith_not_crashed (chunks : List Chunk) : (multiNewickWith false chunks).crashed = false := by
   unfold multiNewickWith
   split
   · rename_i m h; exact absurd h (readUntilSemiColon_no_panic _ _ _)
   · rfl
   · split
-    · exact multiLoop_not_crashed np hnp _ _ _
+    · exact multiLoop_not_crashed _ _ _
     · rfl
 
-theorem multiLoop_shape (np : List UInt8 → Res Newick.Parsed) (line : Line) (id : Nat) (he : line.err = false)
-    (rs : List Rec) (h : multiLoop false np line id he = .ok rs) :
-    ids rs = List.range' id rs.length ∧ errOnlyLast rs = true ∧ rs ≠ [] := by
-  fun_induction multiLoop false np line id he generalizing rs
-  case case2 line id he msg hp =>
+/-- all the records carry a tree -/
+def allTrees (rs : List Rec) : Bool := rs.all (·.tree.isSome)
+
+theorem errOnlyLast_cons_tree (r : Rec) (rs : List Rec) (hr : r.tree.isSome = true) (h : errOnlyLast rs = true) :
+    errOnlyLast (r :: rs) = true := by
+  cases rs with
+  | nil => rfl
+  | cons a t => simp [errOnlyLast, hr, h]
+
+theorem errOnlyLast_append (a b : List Rec) (ha : allTrees a = true) (hb : errOnlyLast b = true) :
+    errOnlyLast (a ++ b) = true := by
+  induction a with
+  | nil => exact hb
+  | cons r t ih =>
+    simp only [allTrees, List.all_cons, Bool.and_eq_true] at ha
+    exact errOnlyLast_cons_tree r (t ++ b) ha.1 (ih (by simpa [allTrees] using ha.2))
+
+theorem errOnlyLast_of_allTrees (a : List Rec) (ha : allTrees a = true) : errOnlyLast a = true := by
+  have := errOnlyLast_append a [] ha rfl
+  simpa using this
+
+/-- the inner loop over one line: ids count up from `id`, at least one record, only the last may be an error;
+    if it did not fail every record is a tree and the next id follows the last one -/
+theorem lineLoop_shape (cs : List Char) (id : Nat) (o : LineOut) (h : lineLoop cs id = .ok o) :
+    ids o.recs = List.range' id o.recs.length ∧ errOnlyLast o.recs = true ∧ o.recs ≠ [] ∧
+    (o.failed = false → allTrees o.recs = true ∧ o.next = id + o.recs.length) := by
+  fun_induction lineLoop cs id generalizing o
+  case case2 cs id m hp =>
     cases h; simp [ids, errOnlyLast, List.range']
-  case case5 line id he p hp next hr hn rs' hm ih =>
+  case case3 cs id p hp hm o' hl ih =>
     cases h
-    have ⟨i1, i2, i3⟩ := ih rs' hm
-    refine ⟨?_, ?_, by simp⟩
+    have ⟨i1, i2, i3, i4⟩ := ih o' hl
+    refine ⟨?_, ?_, by simp, ?_⟩
     · simp only [ids, List.map_cons, List.length_cons, List.range'] at *
       rw [i1]
-    · cases rs' with
-      | nil => exact absurd rfl i3
-      | cons r rest => simp [errOnlyLast, i2]
-  case case6 line id he p hp next hr hn hne ih => exact absurd h (hne rs)
-  case case7 line id he p hp next hr hn =>
+    · exact errOnlyLast_cons_tree _ _ rfl i2
+    · intro hf
+      have ⟨a1, a2⟩ := i4 hf
+      refine ⟨by simpa [allTrees] using a1, ?_⟩
+      simp only [List.length_cons]; omega
+  case case6 cs id p hp hm =>
+    cases h; simp [ids, errOnlyLast, List.range', allTrees]
+  all_goals simp at h
+
+theorem ids_append (a b : List Rec) : ids (a ++ b) = ids a ++ ids b := by simp [ids]
+
+theorem range'_append' (s m n : Nat) : List.range' s m ++ List.range' (s + m) n = List.range' s (m + n) := by
+  have := List.range'_append (s := s) (m := m) (n := n) (step := 1)
+  simpa using this
+
+theorem multiLoop_shape (line : Line) (id : Nat) (he : line.err = false)
+    (rs : List Rec) (h : multiLoop false line id he = .ok rs) :
+    ids rs = List.range' id rs.length ∧ errOnlyLast rs = true ∧ rs ≠ [] := by
+  fun_induction multiLoop false line id he generalizing rs
+  case case3 line id he o hl hf =>
     cases h
-    split <;> simp [ids, errOnlyLast, List.range']
+    have ⟨i1, i2, i3, _⟩ := lineLoop_shape _ _ o hl
+    exact ⟨i1, i2, i3⟩
+  case case6 line id he o hl hf next hr hn rs' hm ih =>
+    cases h
+    have ⟨i1, _, i3, i4⟩ := lineLoop_shape _ _ o hl
+    have hf' : o.failed = false := by cases hh : o.failed <;> simp_all
+    have ⟨a1, a2⟩ := i4 hf'
+    have ⟨j1, j2, j3⟩ := ih rs' hm
+    refine ⟨?_, errOnlyLast_append _ _ a1 j2, by simp [i3]⟩
+    rw [ids_append, i1, j1, a2, List.length_append, range'_append']
+  case case7 line id he o hl hf next hr hn hne ih => exact absurd h (hne rs)
+  case case8 line id he o hl hf next hr hn =>
+    cases h
+    have ⟨i1, i2, i3, i4⟩ := lineLoop_shape _ _ o hl
+    have hf' : o.failed = false := by cases hh : o.failed <;> simp_all
+    have ⟨a1, a2⟩ := i4 hf'
+    split
+    · simp [i1, i2, i3]
+    · refine ⟨?_, errOnlyLast_append _ _ a1 rfl, by simp [i3]⟩
+      rw [ids_append, i1, List.length_append]
+      simp only [ids, List.map_cons, List.map_nil, List.length_cons, List.length_nil, a2]
+      rw [← range'_append']
+      rfl
   all_goals simp at h
 
 /-- the records of the multi-tree reader are numbered 0, 1, 2, …; only the last one may carry an error -/
@@ -92,7 +157,74 @@ theorem multiNewick_shape (chunks : List Chunk) (rs : List Rec) (h : multiNewick
   · cases h
   · cases h
   · split at h
-    · exact multiLoop_shape _ _ _ _ rs h
+    · exact multiLoop_shape _ _ _ rs h
     · cases h; simp [ids, errOnlyLast, List.range']
+
+theorem derefF_some (p : Option Rat) (h : p.isSome = true) (m : String) : derefF p ≠ .panic m := by
+  cases p with
+  | none => simp at h
+  | some v => simp [derefF]
+
+mutual
+theorem pxClade_no_panic : ∀ (c : Clade) (n : Nat) (m : String), pxClade {} c n ≠ .panic m
+  | .mk name sci code len conf kids, n, m => by
+    unfold pxClade
+    split
+    · rename_i m' h
+      split at h
+      · rename_i hl; exact absurd h (derefF_some len hl m')
+      · cases h
+    · simp
+    · split
+      · rename_i m' h
+        split at h
+        · rename_i hc
+          have : conf.isSome = true := by simp at hc; exact hc.2
+          exact absurd h (derefF_some conf this m')
+        · cases h
+      · simp
+      · simp only
+        split
+        · rename_i m' h; exact absurd h (pxKids_no_panic kids _ m')
+        · simp
+        · repeat' split
+          all_goals simp
+theorem pxKids_no_panic : ∀ (k : List Clade) (n : Nat) (m : String), pxKids {} k n ≠ .panic m
+  | [], n, m => by unfold pxKids; simp
+  | c :: r, n, m => by
+    unfold pxKids
+    split
+    · rename_i m' h; exact absurd h (pxClade_no_panic c n m')
+    · simp
+    · split
+      · rename_i m' h; exact absurd h (pxKids_no_panic r _ m')
+      · simp
+      · simp
+end
+
+theorem pxTree_no_panic (c : Clade) (m : String) : pxTree c ≠ .panic m := by
+  cases c with
+  | mk name sci code len conf kids =>
+    unfold pxTree pxTreeWith
+    simp only
+    split
+    · rename_i m' h; exact absurd h (pxKids_no_panic kids 0 m')
+    · simp
+    · repeat' split
+      all_goals simp
+
+theorem pxRecs_no_panic : ∀ (ps : List Clade) (id : Nat) (m : String), pxRecs ps id ≠ .panic m
+  | [], _, m => by unfold pxRecs; simp
+  | p :: r, id, m => by
+    unfold pxRecs
+    have ih := pxRecs_no_panic r (id + 1)
+    split
+    · rename_i m' h; exact absurd h (pxTree_no_panic p m')
+    · split
+      · simp
+      · rename_i o ho; intro h; rw [h] at ho; exact ih m (by cases hr : pxRecs r (id+1) <;> simp_all)
+    · split
+      · simp
+      · rename_i o ho; intro h; rw [h] at ho; exact ih m (by cases hr : pxRecs r (id+1) <;> simp_all)
 
 end Gotree.C02.Readers
